@@ -12,7 +12,7 @@ from harness.oracle.idempotent import UNARY, extend, extend2
 from harness.oracle.jets import derivatives
 
 MODULE = 'Ndt.Props.C12'
-THEOREMS = ['Ndt.psi1_mul', 'Ndt.psi2_mul', 'Ndt.psi_injective', 'Ndt.psi1_powLoop', 'Ndt.psi2_powLoop', 'Ndt.psi_modsq', 'Ndt.psi1_inverse', 'Ndt.psi2_inverse',
+THEOREMS = ['Ndt.arcsin_small_argument', 'Ndt.arctan_small_argument', 'Ndt.arctan_split_real', 'Ndt.arcsin_split_real', 'Ndt.psi1_mul', 'Ndt.psi2_mul', 'Ndt.psi_injective', 'Ndt.psi1_powLoop', 'Ndt.psi2_powLoop', 'Ndt.psi_modsq', 'Ndt.psi1_inverse', 'Ndt.psi2_inverse',
             'Ndt.psi1_pow_integer', 'Ndt.psi2_pow_integer', 'Ndt.pow_integer_reduces',
             'Ndt.phi_injective', 'Ndt.phi1_add', 'Ndt.phi2_add', 'Ndt.phi1_sub', 'Ndt.phi2_sub', 'Ndt.phi1_neg', 'Ndt.phi2_neg',
             'Ndt.phi1_mul', 'Ndt.phi2_mul', 'Ndt.phi_conjugate', 'Ndt.phi1_exp', 'Ndt.phi2_exp', 'Ndt.phi1_sin', 'Ndt.phi2_sin',
@@ -135,9 +135,7 @@ def run(ctx):
                 e = extend(f, z1, z2)
                 scale = abs(e[0]) + abs(e[1]) + 1e-300
                 err = rel_err(R, e) / scale
-                # the recorded finding: arcsin / arccos / arctan go through log(J z + sqrt(1 - z^2)) resp. log(1 -+ J z), whose
-                # argument is 1 + O(z): for tiny z the result keeps absolute, not relative, accuracy
-                sig = 'C01-multicomplex2-inverse-trig' if (name in ('arcsin', 'arccos', 'arctan') and abs(x) < 1e-2) else None
+                sig = None
                 if sig is None:
                     worst = max(worst, err)
                 if not err <= ENVELOPE:
@@ -244,7 +242,7 @@ def run(ctx):
                 if max(e1, e2) > 1e-9:
                     ctx.violation('imag1 / imag12 of f(x + ih + jh) at the multicomplex step size do not give h f\'(x), h^2 f\'\'(x)', function=nm,
                                   x=x, h=hh, rel_error_first=e1, rel_error_second=e2,
-                                  signature='C01-multicomplex2-inverse-trig' if nm in ('arcsin', 'arccos', 'arctan') else None)
+                                  signature=None)
                     break
     ctx.notes.append('worst relative deviation from the idempotent oracle on this run: %.3g (envelope %g)' % (worst, ENVELOPE))
     ctx.assumptions.append('numpy\'s complex elementary functions are the reference for the holomorphic extension (oracle) and are '
